@@ -404,14 +404,18 @@ type kase struct {
 	newFails    []int // object ids of +1 fail events not yet attributed
 	negative    []string
 	nEvents     int
+	tally       [4]int // countRequest +1 / -1, countFail +1 / -1 events
+	maxInflight int64
+	arrived     sync.Map // stress: request id -> chan struct{} closed when the backend has the request
 
-	shadow   []*shadowFail
-	dueTotal []int
-	failures []core.Failure
-	tags     map[string]bool
-	badSeen  bool // a B step happened (narrows the known-finding class)
-	done     []step // steps executed so far
-	infra    string
+	shadow      []*shadowFail
+	dueTotal    []int
+	failures    []core.Failure
+	tags        map[string]bool
+	badSeen     bool   // a B step happened (narrows the known-finding class)
+	done        []step // steps executed so far
+	lastCounted int    // failures counted during the last step
+	infra       string
 }
 
 func (k *kase) onCount(h *reverseproxy.Host, kind int, delta int, result int64) {
@@ -421,6 +425,14 @@ func (k *kase) onCount(h *reverseproxy.Host, kind int, delta int, result int64) 
 		k.nEvents++
 		if result < 0 {
 			k.negative = append(k.negative, fmt.Sprintf("obj%d kind%d delta%+d -> %d", idx, kind, delta, result))
+		}
+		if kind == 0 && result > k.maxInflight {
+			k.maxInflight = result
+		}
+		if delta > 0 {
+			k.tally[2*kind]++
+		} else {
+			k.tally[2*kind+1]++
 		}
 		if kind == 1 {
 			if delta > 0 {
@@ -685,6 +697,7 @@ func (k *kase) settle(c *cfgGen) {
 	nf := k.newFails
 	k.newFails = nil
 	k.mu.Unlock()
+	k.lastCounted = len(nf)
 	for _, obj := range nf {
 		if c == nil {
 			k.fail("failure-counted-without-request", fmt.Sprintf("a failure was counted on object %d during a step that moves no request", obj))
@@ -696,6 +709,11 @@ func (k *kase) settle(c *cfgGen) {
 		if !s.due && (s.cfg.canceled || (s.cfg.st.d < longD && k.tick >= s.t0+s.cfg.st.d)) {
 			s.due = true
 			k.dueTotal[s.obj]++
+			if s.cfg.canceled {
+				k.tag("forgotten-on-unload")
+			} else {
+				k.tag("forgotten-after-window")
+			}
 		}
 	}
 	deadline := time.Now().Add(4 * time.Second)
@@ -895,15 +913,50 @@ func (p *prop) runSched(K int, src stepSource, U time.Duration) (impl string, k 
 			break
 		}
 		k.settle(moved)
-		if st.op != 'T' && k.pendingTimed() && time.Since(k.anchor.Add(time.Duration(k.tick)*k.U)) > k.U*3/8 {
+		out = append(out, k.snapshot(ev))
+		k.oracleCounted(st, moved)
+		// the discrete clock is only trustworthy if everything up to the snapshot happened in
+		// the first part of the current tick (windows end half a tick before a tick boundary)
+		if k.pendingTimed() && time.Since(k.anchor.Add(time.Duration(k.tick)*k.U)) > k.U*3/8 {
 			k.late = true
 		}
-		out = append(out, k.snapshot(ev))
 		k.oracleStep(ev)
 		if strings.HasPrefix(ev, "P") {
 			k.tag("parked")
+			if st.op == 'O' {
+				k.tag("retried-then-parked")
+			}
 		} else if ev == "ok" || ev == "err" || ev == "panic" {
 			k.tag("ret-" + ev)
+		}
+		if snap := out[len(out)-1]; true {
+			if i := strings.Index(snap, "]["); i >= 0 {
+				cur := snap[i+2:]
+				if j := strings.Index(cur, "]"); j >= 0 {
+					cur = cur[:j]
+				}
+				if strings.Contains(cur, "u") {
+					k.tag("upstream-unhealthy")
+				}
+				if strings.Contains(cur, "f") {
+					k.tag("upstream-full")
+				}
+			}
+		}
+		if st.op == 'L' {
+			seen := map[int]bool{}
+			for _, key := range st.keys {
+				if seen[key] {
+					k.tag("duplicate-upstream-key")
+				}
+				seen[key] = true
+			}
+			if !st.p {
+				k.tag("no-passive-checks")
+			}
+			if st.p && st.d == 0 {
+				k.tag("passive-without-fail-duration")
+			}
 		}
 	}
 	if !ok {
